@@ -319,8 +319,12 @@ def predictions(iso, grid):
         direct = m.calculates == kind
         for x in (xs if direct else xs[1:3]):
             try:
-                y = iso.loading_at(x) if kind == "loading" else iso.pressure_at(x)
+                # numpy scalars and Python floats differ in how they report 1/0: make both raise
+                with numpy.errstate(divide="raise", invalid="raise", over="raise"):
+                    y = iso.loading_at(x) if kind == "loading" else iso.pressure_at(x)
                 out.append(num(float(numpy.asarray(y).reshape(-1)[0])))
+            except ArithmeticError:
+                out.append(["raise:ArithmeticError", 0, 0, -1])
             except Exception as e:
                 out.append(["raise:" + exc_class(e), 0, 0, -1])
     return out
@@ -429,6 +433,11 @@ def layout_data(layout, rep, rng):
     if layout == "int_typed":
         ps = [1, 2, 3, 5, 8]
         return {"pressure": ps, "loading": [2, 3, 5, 6, 7], "branch": "guess", "extra": {}}
+    if layout == "ads_unsorted":
+        # all points declared adsorption although the pressure is not monotonic (a re-measured point)
+        ps = up(5)
+        ps = [ps[0], ps[1], ps[4], ps[2], ps[3]]
+        return {"pressure": ps, "loading": load(ps), "branch": "ads", "extra": {}}
     if layout == "many_points":
         a = up(24)
         d = list(reversed(up(12, 0.1, 0.9)))
@@ -546,7 +555,8 @@ class Builder:
         import pygaps
         if key not in self._fits:
             try:
-                self._fits[key] = pygaps.ModelIsotherm(**fit_args, **kw).model
+                # (the isotherm constructor pops 'name' out of a material dictionary: hand it a copy)
+                self._fits[key] = pygaps.ModelIsotherm(**fit_args, **copy.deepcopy(kw)).model
             except Exception as e:
                 self._fits[key] = e
         m = self._fits[key]
